@@ -1,12 +1,14 @@
 #!/bin/bash
-# tools/seed_run.sh <seed-name> <PROPERTY> [tier] : apply /verif/seeded/<name>/patch.diff to /repo, run the check, undo.
+# tools/seed_run.sh <seed-name> <PROPERTY> [tier] : apply /verif/seeded/<name>/patch.diff (or patch_ported.diff) to /repo, run the check, undo.
 N=$1; P=$2; TIER=${3:-quick}
 cd /verif || exit 2
 git -C /repo diff --quiet || { echo "/repo is dirty"; exit 2; }
-git -C /repo apply /verif/seeded/$N/patch.diff || exit 2
-./check $P --tier $TIER > /tmp/seedrun.$N.log 2>&1; RC=$?
+PATCH=/verif/seeded/$N/patch.diff; [ -f /verif/seeded/$N/patch_ported.diff ] && PATCH=/verif/seeded/$N/patch_ported.diff
+git -C /repo apply $PATCH || exit 2
+mkdir -p /verif/work
+./check $P --tier $TIER > /verif/work/seedrun.$N.log 2>&1; RC=$?
 git -C /repo checkout -- .
-V=$(grep -c "^VIOLATION" /tmp/seedrun.$N.log)
+V=$(grep -c "^VIOLATION" /verif/work/seedrun.$N.log)
 echo "seed=$N property=$P tier=$TIER rc=$RC violations=$V"
-grep "^VIOLATION" /tmp/seedrun.$N.log | head -3
-tail -1 /tmp/seedrun.$N.log
+grep "^VIOLATION" /verif/work/seedrun.$N.log | head -3
+tail -1 /verif/work/seedrun.$N.log
